@@ -2,6 +2,7 @@ package bcheck
 
 import (
 	"io"
+	"runtime"
 	"verif/internal/refcodec"
 	"os"
 	"strconv"
@@ -25,7 +26,7 @@ import (
 func init() {
 	Registry["C14"] = &Check{
 		Scenarios: c14Scenarios,
-		Rule: "events: CloseNotify requested {inside the first handler, by a free application thread at every possible instant (in particular while the reader is parked in Read), twice (handler + thread), after termination}; two messages delivered in three fragments (one fragment boundary inside the first header); a Read after the local end was closed reports io.ErrClosedPipe / net.ErrClosed / the harness's own error depending on the request mode; termination by {peer EOF, transport read error, a read error that reports itself as temporary (once), EOF / read error returned by the same Read that delivers the last message (n > 0 with err != nil), undecodable header followed by trailing bytes, local Close from a free thread at every instant, a handler panic on the second message (recovered by the serve loop)}; an observer thread records the instant the channel closes. The requesting / closing / observing threads and the peer are environment threads, so every ordering of their steps against the library's steps is explored even at preemption bound 0; library preemption bound 2 (quick) / unbounded (thorough). The same request modes {handler, thread, after} x terminations {EOF, undecodable input, local Close, EOF inside a header, EOF / reset inside a body} on a multistream (in-memory SCTP) connection, where CloseNotify installs a read-error handler. Also a handler (of a message read through the switched reader) that waits on the channel while the peer ends the connection {EOF, reset}: the notifier is then the only goroutine able to observe the end. Also a local Close while the handler of a later message is busy and the notifier holds the bytes of a further message; the busy handler then panics or returns. Also a local Close while an application goroutine's Write is stuck inside the transport (the peer has stopped reading). Also a connection accepted by a Server with ReadTimeout 2 s that idles into its read deadline (virtual clock), CloseNotify requested {in the handler, by a thread, not at all}. Also sm.Client with the watchdog enabled followed by a quiet peer close, preceded by 0, 1, 2 or 3 unsolicited success DWAs (in one segment or one segment each) (virtual time, horizon 12 s).",
+		Rule: "events: CloseNotify requested {inside the first handler, by a free application thread at every possible instant (in particular while the reader is parked in Read), twice (handler + thread), after termination}; two messages delivered in three fragments (one fragment boundary inside the first header); a Read after the local end was closed reports io.ErrClosedPipe / net.ErrClosed / the harness's own error depending on the request mode; termination by {peer EOF, transport read error, a read error that reports itself as temporary (once), EOF / read error returned by the same Read that delivers the last message (n > 0 with err != nil), undecodable header followed by trailing bytes, local Close from a free thread at every instant, a handler panic on the second message (recovered by the serve loop)}; an observer thread records the instant the channel closes. The requesting / closing / observing threads and the peer are environment threads, so every ordering of their steps against the library's steps is explored even at preemption bound 0; library preemption bound 2 (quick) / unbounded (thorough). The same request modes {handler, thread, after} x terminations {EOF, undecodable input, local Close, EOF inside a header, EOF / reset inside a body} on a multistream (in-memory SCTP) connection, where CloseNotify installs a read-error handler. Also a handler (of a message read through the switched reader) that waits on the channel while the peer ends the connection {EOF, reset}: the notifier is then the only goroutine able to observe the end. Also a local Close while the handler of a later message is busy and the notifier holds the bytes of a further message; the busy handler then panics or returns. Also a handler that ends its goroutine with runtime.Goexit (the reader unwinds without a read error and without a panic value), CloseNotify requested {in the first handler, by the application before anything arrives}. Also a local Close while an application goroutine's Write is stuck inside the transport (the peer has stopped reading). Also a connection accepted by a Server with ReadTimeout 2 s that idles into its read deadline (virtual clock), CloseNotify requested {in the handler, by a thread, not at all}. Also sm.Client with the watchdog enabled followed by a quiet peer close, preceded by 0, 1, 2 or 3 unsolicited success DWAs (in one segment or one segment each) (virtual time, horizon 12 s).",
 		Assume: []string{"data-race freedom between visible operations (audited separately with -race)", "io.Pipe is modelled by vsched.Pipe (Write blocks until the data is consumed or either end is closed)"},
 		QuickBudget: 100, ThoroughBudget: 1500,
 	}
@@ -85,6 +86,9 @@ func c14Scenarios(tier string) []*Scenario {
 	}
 	for _, exit := range []string{"panic", "return"} {
 		out = append(out, c14LocalCloseBusyHandler(exit, bound))
+	}
+	for _, req := range []string{"handler", "none"} {
+		out = append(out, c14HandlerLeaves(req, bound))
 	}
 	out = append(out, c14Watchdog(bound), c14WatchdogStray(1, false, bound), c14WatchdogStray(2, true, bound), c14WatchdogStray(2, false, bound), c14WatchdogStray(3, true, bound))
 	// client handshakes that end exactly at the deadline: whatever the outcome, once the transport
@@ -443,6 +447,88 @@ func c14LocalCloseBusyHandler(exit string, bound int) *Scenario {
 	}
 	return &Scenario{Name: "closenotify/local-close-while-a-handler-is-busy/" + exit, Body: body, Check: check, Bound: bound,
 		Outcome: func(s *vs.Sched) string { return fmt.Sprintf("handled=%v blockedlib=%d", c14st.handled, len(s.BlockedLib())) }}
+}
+
+// c14HandlerLeaves: the handler of the second message ends its goroutine with runtime.Goexit (what
+// t.Fatal does when an application's test calls it inside a handler): the reader goroutine unwinds
+// without a read error and without a panic value. Whenever the CloseNotify channel closes, the
+// transport is closed and nothing of the library is left behind.
+func c14HandlerLeaves(req string, bound int) *Scenario {
+	m1, m2, m3 := c14msg(1), c14msg(2), c14msg(3)
+	body := func() {
+		st := &c14State{}
+		c14st = st
+		conn := vnet.NewConn("A")
+		conn.Pieces = 1
+		st.conn = conn
+		mux := diam.NewServeMux()
+		mux.HandleFunc("ALL", func(c diam.Conn, m *diam.Message) {
+			st.handled = append(st.handled, m.Header.HopByHopID)
+			switch len(st.handled) {
+			case 1:
+				if req == "handler" {
+					st.chs = append(st.chs, c.(diam.CloseNotifier).CloseNotify())
+				}
+			case 2:
+				vs.Event("handler leaves with runtime.Goexit")
+				runtime.Goexit()
+			}
+		})
+		c, err := diam.NewConn(conn, "peer", mux, dict.Default)
+		if err != nil {
+			panic(err)
+		}
+		if req == "none" {
+			// requested by the application right away, before anything arrives
+			st.chs = append(st.chs, c.(diam.CloseNotifier).CloseNotify())
+		}
+		vs.GoNamed("observer", true, func() {
+			vs.BlockObj("wait-request", conn, func() bool { return len(st.chs) > 0 || conn.Closed })
+			if len(st.chs) == 0 {
+				return
+			}
+			st.chs[0].Recv2()
+			if !conn.Closed {
+				st.early = "the CloseNotify channel closed while the transport was still open (no peer close, no local Close, no read error: the handler of the second message left with runtime.Goexit)"
+			}
+		})
+		vs.GoNamed("peer", true, func() {
+			conn.Deliver(m1)
+			vs.Yield("env")
+			conn.Deliver(m2)
+			vs.Yield("env")
+			conn.Deliver(m3)
+		})
+	}
+	check := func(s *vs.Sched) string {
+		st := c14st
+		var v []string
+		if p := s.Panics(); len(p) > 0 {
+			v = append(v, "panic escaped: "+strings.Join(p, "; "))
+		}
+		if st.early != "" {
+			v = append(v, st.early)
+		}
+		if len(st.handled) < 2 {
+			v = append(v, "harness: the second handler never ran")
+		}
+		if len(st.chs) == 1 && st.chs[0].IsClosed() && !st.conn.Closed {
+			v = append(v, "the CloseNotify channel is closed and the transport is still open")
+		}
+		if st.conn.Closed {
+			if len(st.chs) == 1 && !st.chs[0].IsClosed() {
+				v = append(v, "the transport was closed but the CloseNotify channel never closed")
+			}
+			if b := s.BlockedLib(); len(b) > 0 {
+				v = append(v, "library goroutines still alive after the connection terminated: "+strings.Join(b, ", "))
+			}
+		}
+		return strings.Join(v, " | ")
+	}
+	return &Scenario{Name: "closenotify/handler-leaves-with-goexit/" + req, Body: body, Check: check, Bound: bound,
+		Outcome: func(s *vs.Sched) string {
+			return fmt.Sprintf("handled=%v closed=%v blockedlib=%d", c14st.handled, c14st.conn.Closed, len(s.BlockedLib()))
+		}}
 }
 
 // c14Multi: the same protocol on a multistream (SCTP) connection, where CloseNotify installs a
